@@ -35,6 +35,7 @@ import (
 	"go.minekube.com/common/minecraft/component"
 	"go.minekube.com/gate/pkg/edition/java/auth"
 	"go.minekube.com/gate/pkg/edition/java/config"
+	"go.minekube.com/gate/pkg/edition/java/proxy/message"
 	"go.minekube.com/gate/pkg/internal/verifkit"
 	"pgregory.net/rapid"
 )
@@ -53,12 +54,15 @@ type c08Op struct {
 	// pluginresp / unknown
 	ID   int32  `json:"id,omitempty"`
 	Body []byte `json:"body,omitempty"`
+	// pluginresp: Answer k>0 answers the k-th login plugin request that is still
+	// unanswered (if a PreLogin handler sent any); 0 = use ID as it is (unsolicited)
+	Answer int `json:"answer,omitempty"`
 }
 
 type c08Case struct {
 	Protocol     int32   `json:"protocol"`
 	OnlineMode   bool    `json:"online_mode"`
-	PreLogin     string  `json:"prelogin"` // none | allow | deny | force-online | force-offline
+	PreLogin     string  `json:"prelogin"` // none | allow | deny | force-online | force-offline | plugin-1 | plugin-2 (handler sends that many login plugin requests)
 	Session      string  `json:"session"`  // ok | ok-othername | empty200 | 204 | 401 | 401-profile | 500 | error | badjson | noname
 	Compression  int     `json:"compression"`
 	ForceKeyAuth bool    `json:"force_key_auth"`
@@ -208,6 +212,10 @@ func (s *c08Session) Requests() []c08SessionReq {
 	return append([]c08SessionReq(nil), s.reqs...)
 }
 
+type c08Consumer struct{}
+
+func (c08Consumer) OnMessageResponse([]byte) error { return nil }
+
 func c08SessionOK(kind string) bool { return kind == "ok" || kind == "ok-othername" }
 
 // ---------------------------------------------------------------- events
@@ -242,8 +250,8 @@ func c08LoginPayload(c c08Case, op c08Op, pubDER []byte, st *c08Stream) []byte {
 	case c.Protocol == 760 || c.Protocol == 759:
 		if op.Key {
 			b = append(b, 1)
-			b = append(b, verifkit.RefU64(4102444800000)...) // expires 2100-01-01
-			b = append(b, verifkit.RefBytes(pubDER)...)      // a well-formed RSA key ...
+			b = append(b, verifkit.RefU64(4102444800000)...)   // expires 2100-01-01
+			b = append(b, verifkit.RefBytes(pubDER)...)        // a well-formed RSA key ...
 			b = append(b, verifkit.RefBytes(st.Bytes(512))...) // ... with a signature Mojang never made
 		} else {
 			b = append(b, 0)
@@ -315,6 +323,13 @@ func c08RunInner(c c08Case) (res verifkit.Result) {
 			e.ForceOnlineMode()
 		case "force-offline":
 			e.ForceOfflineMode()
+		case "plugin-1", "plugin-2":
+			if lpc, ok := e.Conn().(LoginPhaseConnection); ok {
+				id, _ := message.ChannelIdentifierFrom("verif:c08")
+				for k := 0; k < int(c.PreLogin[7]-'0'); k++ {
+					_ = lpc.SendLoginPluginMessage(id, []byte{byte(k + 1)}, c08Consumer{})
+				}
+			}
 		}
 	})
 	event.Subscribe(mgr, 0, func(e *GameProfileRequestEvent) {
@@ -388,11 +403,11 @@ func c08RunInner(c c08Case) (res verifkit.Result) {
 		}
 		softPrev = -1
 	}
-	var token []byte  // issued verify token
+	var token []byte // issued verify token
 	wirePub := &proxyKey.PublicKey
 	gotEncReq := false
 	loginName := ""
-	encOn := false    // the client switched to AES/CFB8 under secret16
+	encOn := false // the client switched to AES/CFB8 under secret16
 	outThreshold := -1
 	var outCipher *verifkit.RefCFB8
 	var usedSecret []byte // the secret the client RSA-encrypted correctly (any length)
@@ -422,6 +437,44 @@ func c08RunInner(c c08Case) (res verifkit.Result) {
 			i, kind, strictPrevAt, strictPrev)
 	}
 
+	// login plugin requests of the PreLogin handler (1.13+): the proxy holds the
+	// login until every one is answered
+	wantPlugin := 0
+	if (c.PreLogin == "plugin-1" || c.PreLogin == "plugin-2") && c.Protocol >= 393 {
+		wantPlugin = int(c.PreLogin[7] - '0')
+	}
+	var pending []int32
+	// afterPreLogin: the login start was accepted and nothing is outstanding; frame
+	// is the first frame the proxy wrote after that point (nil if none)
+	afterPreLogin := func(frame []byte) *verifkit.Result {
+		if onlinePath {
+			if len(frame) > 0 && frame[0] == 0x01 {
+				tk, pk, perr := c08ParseEncReq(frame)
+				if perr != nil {
+					r := verifkit.Fail("harness:encryption-request", "cannot parse EncryptionRequest %x: %v", frame, perr)
+					return &r
+				}
+				if pk.N.Cmp(proxyKey.N) != 0 || pk.E != proxyKey.E {
+					r := verifkit.Fail("harness:encryption-request", "EncryptionRequest carries a public key that is not the authenticator's")
+					return &r
+				}
+				token, wirePub, gotEncReq = tk, pk, true
+				phase = "encwait"
+				addLabel("reached-encwait")
+			} else {
+				phase, notAdmitWhy = "rejected", "no-encryption-request"
+				addLabel("online-no-encryption-request")
+			}
+			return nil
+		}
+		phase = "offline"
+		addLabel("offline-path")
+		if c.Compression >= 0 {
+			outThreshold = c.Compression
+		}
+		return nil
+	}
+
 	stopped := false
 	asyncTail := false
 	for i, op := range c.Ops {
@@ -431,6 +484,7 @@ func c08RunInner(c c08Case) (res verifkit.Result) {
 		var payload []byte
 		tokenOK, secretRSAOK := false, false
 		var thisSecret []byte
+		solicited := -1 // index into pending of the request this plugin response answers
 		switch op.Kind {
 		case "login":
 			payload = c08LoginPayload(c, op, pubDER, st)
@@ -495,8 +549,16 @@ func c08RunInner(c c08Case) (res verifkit.Result) {
 			}
 			payload = c08EncRespPayload(c, encSecret, encToken)
 		case "pluginresp":
-			payload = append(verifkit.RefVarInt(0x02), verifkit.RefVarInt(op.ID)...)
-			payload = append(payload, 0)
+			id, ok := op.ID, byte(0)
+			if op.Answer > 0 && phase == "pluginwait" && len(pending) > 0 {
+				solicited = (op.Answer - 1) % len(pending)
+				id = pending[solicited]
+				if len(op.Body) > 0 {
+					ok = 1
+				}
+			}
+			payload = append(verifkit.RefVarInt(0x02), verifkit.RefVarInt(id)...)
+			payload = append(payload, ok)
 			payload = append(payload, op.Body...)
 		case "ack":
 			payload = verifkit.RefVarInt(0x03)
@@ -530,6 +592,22 @@ func c08RunInner(c c08Case) (res verifkit.Result) {
 		}
 		switch kind {
 		case "pluginresp":
+			if solicited >= 0 {
+				addLabel("answered-prelogin-plugin-request")
+				pending = append(pending[:solicited], pending[solicited+1:]...)
+				if len(pending) == 0 {
+					// the held login continues
+					frames, _ := cl.AwaitPlainFrames(wantPlugin + 1)
+					var next []byte
+					if len(frames) == wantPlugin+1 {
+						next = frames[wantPlugin]
+					}
+					if r := afterPreLogin(next); r != nil {
+						return *r
+					}
+				}
+				break
+			}
 			// unsolicited; the property text does not settle whether this counts as
 			// "out of order": no closure demanded, phase unchanged.
 			addLabel("unsolicited-plugin-response")
@@ -553,34 +631,38 @@ func c08RunInner(c c08Case) (res verifkit.Result) {
 				case c.PreLogin == "deny":
 					phase, notAdmitWhy = "rejected", "prelogin-denied"
 					addLabel("prelogin-denied")
-				case onlinePath:
-					if len(frames) == 1 && len(frames[0]) > 0 && frames[0][0] == 0x01 {
-						tk, pk, perr := c08ParseEncReq(frames[0])
-						if perr != nil {
-							return verifkit.Fail("harness:encryption-request", "cannot parse EncryptionRequest %x: %v", frames[0], perr)
+				case wantPlugin > 0:
+					frames, _ = cl.AwaitPlainFrames(wantPlugin)
+					pending = nil
+					for _, f := range frames {
+						if len(f) > 1 && f[0] == 0x04 {
+							if id, e := verifkit.NewRefReader(f[1:]).VarInt(); e == nil {
+								pending = append(pending, id)
+							}
 						}
-						if pk.N.Cmp(proxyKey.N) != 0 || pk.E != proxyKey.E {
-							return verifkit.Fail("harness:encryption-request", "EncryptionRequest carries a public key that is not the authenticator's")
-						}
-						token, wirePub, gotEncReq = tk, pk, true
-						phase = "encwait"
-						addLabel("reached-encwait")
+					}
+					if len(pending) == wantPlugin {
+						phase = "pluginwait"
+						addLabel("reached-pluginwait")
 					} else {
-						phase, notAdmitWhy = "rejected", "no-encryption-request"
-						addLabel("online-no-encryption-request")
+						phase, notAdmitWhy = "rejected", "no-plugin-request"
+						addLabel("prelogin-plugin-request-missing")
+						pending = nil
 					}
 				default:
-					phase = "offline"
-					addLabel("offline-path")
-					if c.Compression >= 0 {
-						outThreshold = c.Compression
+					var first []byte
+					if len(frames) == 1 {
+						first = frames[0]
+					}
+					if r := afterPreLogin(first); r != nil {
+						return *r
 					}
 				}
 			default:
 				strictPrev, strictPrevAt = "login-start", i
 				deviation = true
 				addLabel("repeated-login-start@" + phase)
-				if phase == "encwait" {
+				if phase == "encwait" || phase == "pluginwait" {
 					phase, notAdmitWhy = "rejected", "repeated-login-start"
 				}
 			}
@@ -765,7 +847,7 @@ func c08RunInner(c c08Case) (res verifkit.Result) {
 	if tr.compressed {
 		addLabel("compressed-frames-read")
 	}
-	nt := gotEncReq && (deviation || !c08SessionOK(c.Session))
+	nt := (gotEncReq || wantPlugin > 0 && loginName != "") && (deviation || !c08SessionOK(c.Session))
 	if deferred != nil {
 		// everything else about this history was judged and is fine
 		return verifkit.Result{V: deferred, NonTrivial: nt, Labels: append(labels, "deferred-unsolicited-plugin-response")}
@@ -1013,7 +1095,8 @@ func c08GenOp(t *rapid.T, protocol int32) c08Op {
 	case "encresp":
 		return c08GenEncResp(t, rapid.IntRange(0, 3).Draw(t, "bias"))
 	case "pluginresp":
-		return c08Op{Kind: kind, ID: rapid.SampledFrom([]int32{0, 1, 2, 7, -1}).Draw(t, "id"), Body: rapid.SliceOfN(rapid.Byte(), 0, 8).Draw(t, "body")}
+		return c08Op{Kind: kind, ID: rapid.SampledFrom([]int32{0, 1, 2, 7, -1}).Draw(t, "id"), Body: rapid.SliceOfN(rapid.Byte(), 0, 8).Draw(t, "body"),
+			Answer: rapid.SampledFrom([]int{0, 0, 1, 2}).Draw(t, "answer")}
 	case "ack":
 		return c08Op{Kind: kind}
 	default:
@@ -1025,7 +1108,7 @@ func c08Gen(t *rapid.T) c08Case {
 	c := c08Case{
 		Protocol:     rapid.SampledFrom(c08Protocols).Draw(t, "protocol"),
 		OnlineMode:   rapid.IntRange(0, 9).Draw(t, "online") != 0,
-		PreLogin:     rapid.SampledFrom([]string{"none", "none", "none", "none", "allow", "deny", "force-online", "force-offline"}).Draw(t, "prelogin"),
+		PreLogin:     rapid.SampledFrom([]string{"none", "none", "none", "none", "allow", "deny", "force-online", "force-offline", "plugin-1", "plugin-2"}).Draw(t, "prelogin"),
 		Session:      rapid.SampledFrom([]string{"ok", "ok", "ok", "ok", "ok", "ok-othername", "empty200", "204", "401", "401-profile", "500", "error", "badjson", "noname"}).Draw(t, "session"),
 		Compression:  rapid.SampledFrom([]int{-1, -1, 256, 1}).Draw(t, "compression"),
 		ForceKeyAuth: rapid.IntRange(0, 3).Draw(t, "forceKey") == 0,
@@ -1034,15 +1117,22 @@ func c08Gen(t *rapid.T) c08Case {
 	}
 	validName := rapid.SampledFrom([]string{"Alice", "bob_123", "X_", "Sixteen_Chars_16", "Notch"}).Draw(t, "loginName")
 	login := c08Op{Kind: "login", Name: validName}
+	// answers to the PreLogin handler's login plugin requests (clean flows)
+	var answers []c08Op
+	if (c.PreLogin == "plugin-1" || c.PreLogin == "plugin-2") && c.Protocol >= 393 {
+		for k := int(c.PreLogin[7] - '0'); k > 0; k-- {
+			answers = append(answers, c08Op{Kind: "pluginresp", Answer: rapid.IntRange(1, 2).Draw(t, "answerWhich"), Body: rapid.SliceOfN(rapid.Byte(), 0, 4).Draw(t, "answerBody")})
+		}
+	}
 	shape := rapid.IntRange(0, 9).Draw(t, "shape")
 	switch {
 	case shape <= 3: // login, one encryption response (clean / forged token / bad secret / mixed), optional tail
-		c.Ops = []c08Op{login, c08GenEncResp(t, rapid.IntRange(0, 3).Draw(t, "bias"))}
+		c.Ops = append(append([]c08Op{login}, answers...), c08GenEncResp(t, rapid.IntRange(0, 3).Draw(t, "bias")))
 		for n := rapid.IntRange(0, 2).Draw(t, "tail"); n > 0; n-- {
 			c.Ops = append(c.Ops, c08GenOp(t, c.Protocol))
 		}
 	case shape <= 6: // clean exchange with one deviation inserted
-		c.Ops = []c08Op{login, c08GenEncResp(t, 0)}
+		c.Ops = append(append([]c08Op{login}, answers...), c08GenEncResp(t, 0))
 		if c.Protocol >= 764 && rapid.Bool().Draw(t, "withAck") {
 			c.Ops = append(c.Ops, c08Op{Kind: "ack"})
 		}
@@ -1079,6 +1169,6 @@ func TestVerif_C08(t *testing.T) {
 		}
 	}()
 	verifkit.Check(t, "C08", "login",
-		"login-phase packet sequences (1-7 ops over LoginStart / EncryptionResponse with token in {correct, wrong, empty, truncated, extended, unencrypted, garbage, empty array} x secret in {valid, garbage, unencrypted, empty array, other key, odd lengths} / unsolicited LoginPluginResponse / LoginAcknowledged / unknown id; duplicates and reorderings) x protocol in {1.8 .. 26.2} x online-mode on/off x PreLogin in {none, allow, deny, force-online, force-offline} x session answer in {200+profile, other name, 200 empty, 204, 401, 401 with a profile body, 500, transport error, bad JSON, no name} x compression; reference login automaton; non-trivial = the exchange reached the EncryptionRequest and contains a deviation or a non-200 session answer",
+		"login-phase packet sequences (1-7 ops over LoginStart / EncryptionResponse with token in {correct, wrong, empty, truncated, extended, unencrypted, garbage, empty array} x secret in {valid, garbage, unencrypted, empty array, other key, odd lengths} / unsolicited LoginPluginResponse / LoginAcknowledged / unknown id; duplicates and reorderings) x protocol in {1.8 .. 26.2} x online-mode on/off x PreLogin in {none, allow, deny, force-online, force-offline, handler sends 1 or 2 login plugin requests that hold the login until answered (solicited answers, repeated login start / encryption response / ack while they are outstanding)} x session answer in {200+profile, other name, 200 empty, 204, 401, 401 with a profile body, 500, transport error, bad JSON, no name} x compression; reference login automaton; non-trivial = the exchange reached the EncryptionRequest and contains a deviation or a non-200 session answer",
 		c08Gen, c08Run)
 }
